@@ -10,7 +10,7 @@ export CARGO_TARGET_DIR=$W/target
 while [ $# -ge 2 ]; do
   P=$1; N=$2; shift 2
   src=/tmp/wt/$P/out
-  id=${P}-agent$N
+  PROP=${P#r2-}; if [ "$PROP" != "$P" ]; then id=${PROP}-r2agent$N; else id=${P}-agent$N; fi
   demo=$src/demo_$N.rs
   crate=$(head -1 $demo | grep -o "stun-[a-z]*" | head -1)
   [ -z "$crate" ] && crate=$(ls /tmp/wt/$P/stun-types/tests/demo_$N.rs >/dev/null 2>&1 && echo stun-types || echo stun-proto)
@@ -30,10 +30,11 @@ while [ $# -ge 2 ]; do
     mkdir -p /verif/seeded/$id
     cp $src/change$N.diff /verif/seeded/$id/patch.diff
     cp $demo /verif/seeded/$id/demo.rs
-    python3 - "$id" "$P" "$N" "$crate" "$suite" "$with" "$without" <<'PY'
+    python3 - "$id" "$PROP" "$N" "$crate" "$suite" "$with" "$without" <<'PY'
 import json,sys,re
 id,P,N,crate,suite,w,wo=sys.argv[1:8]
-notes=open(f'/tmp/wt/{P}/out/notes.md').read()
+import glob
+notes=open(glob.glob(f'/tmp/wt/*{P}/out/notes.md')[0]).read() if not id.count('r2') else open(f'/tmp/wt/r2-{P}/out/notes.md').read()
 json.dump({'id':id,'breaks_property':P,'origin':'independent sub-agent given only the property record and a scratch worktree',
  'demo':{'file':'demo.rs','crate':crate,'how':f'copy to {crate}/tests/demo_{N}.rs and run cargo test --offline -p {crate} --test demo_{N}'},
  'confirmed_by_me':{'existing_suite_with_change':suite,'demo_with_change':w,'demo_without_change':wo,'where':'scratch worktree of /repo HEAD under /tmp/wt (removed afterwards)'},
